@@ -41,6 +41,7 @@ def parseKey (d : String) : Option Key :=
 def parseAct (a th : Nat) (name detail : String) : Option Act :=
   let t : Tid := (a, th)
   match name with
+  | "cfg.big" => some (.config (natOf detail))
   | "cmd.begin" => (parseCmd detail).map (Act.cmdBegin t)
   | "db.bound" => some (.bound t)
   | "vm.pin" => some (.pin t)
@@ -162,6 +163,7 @@ def resStr : Res → String
 /-- what the model has to say about an event after executing it -/
 def renderEv (before after : Sys) (a : Act) : String :=
   match a with
+  | .config _ => "cfg.big"
   | .cmdBegin _ _ => "cmd.begin"
   | .bound _ => "db.bound"
   | .pin _ => "vm.pin " ++ toString before.k.epoch
